@@ -29,6 +29,7 @@ def seg_atoms(alpha='a'):
         (('ext', '@', ((L(a),), (L('b'), ('star',)))),), (('ext', '!', ((L(a),),)),), (L('.'),), (L('.'), L('.')),
         (('star',), ('q',), L(a)), (L('.'), ('star',)), (('ext', '+', ((('q',),),)),), (('br', True, (('ch', a),)),),
         (('esc', '*'),), (('ext', '!', ((L(a),), (('star',), L('b')))), L('c')), (('q',), ('q',)), (('br', False, (('posix', 'alpha'),)), ('star',)),
+        (('star',), L('('), L(a)), (('q',), L('('), L(a)), (L('['), L(a)),
     ]
 
 
@@ -63,6 +64,15 @@ def name_patterns(tier='quick', alpha='ab.'):
     pats += [(g,) for g in nested] + [(L('a'), g) for g in nested[::2]]
     pats += [(n,) for n in negs] + [(n, L('a')) for n in negs[::3]] + [(n, L('.'), L('b')) for n in negs[::5]]
     pats += [(L('a'), n) for n in negs[::4]]
+    pats += degraded()
+    pats += [d + (L('b'),) for d in degraded()[:6]] + [(L('a'),) + d for d in degraded()[:6]]
     if tier != 'quick':
         pats += list(P.enum_names(P.atoms('abB.'), 3))
     return list(dict.fromkeys(pats))
+
+
+def degraded():
+    """malformed constructs that C10 says degrade to literal text (unterminated groups / brackets): the same text, read as literals"""
+    star, q = ('star',), ('q',)
+    return [(star, L('('), L('a')), (q, L('('), L('a')), (L('@'), L('('), L('a')), (L('+'), L('('), L('a'), L('|'), L('b')), (L('!'), L('('), L('a')),
+            (star, L('('), L('a'), L('|'), L('b')), (L('['), L('a')), (L('a'), L('[')), (star, L('('), q), (q, L('('), star), (L('['), L('!'), L('a')), (L('a'), L(')'), star)]
